@@ -97,6 +97,7 @@ pub enum ErrKind {
     TimedOut,
     ConnectionReset,
     BrokenPipe,
+    WriteZero,
 }
 
 impl ErrKind {
@@ -107,6 +108,7 @@ impl ErrKind {
             ErrKind::TimedOut => std::io::ErrorKind::TimedOut,
             ErrKind::ConnectionReset => std::io::ErrorKind::ConnectionReset,
             ErrKind::BrokenPipe => std::io::ErrorKind::BrokenPipe,
+            ErrKind::WriteZero => std::io::ErrorKind::WriteZero,
         }
     }
     pub fn from_io(k: std::io::ErrorKind) -> Option<ErrKind> {
@@ -116,6 +118,7 @@ impl ErrKind {
             std::io::ErrorKind::TimedOut => ErrKind::TimedOut,
             std::io::ErrorKind::ConnectionReset => ErrKind::ConnectionReset,
             std::io::ErrorKind::BrokenPipe => ErrKind::BrokenPipe,
+            std::io::ErrorKind::WriteZero => ErrKind::WriteZero,
             _ => return None,
         })
     }
@@ -149,6 +152,8 @@ pub enum WriteEv {
     Stall(u64),
     /// transport error
     Err(ErrKind),
+    /// the transport accepts nothing: Ok(0) for a non-empty buffer ("cannot take any more")
+    Zero,
 }
 
 /// What the link does on the next flush of the write half.
